@@ -282,6 +282,21 @@ fn subdfas_to_json(d: &DFA) -> String {
     format!("[{}]", items.join(","))
 }
 
+/// pairs of distinct entries of the within-word pool that compare equal with the library's own `==`:
+/// whether such a pair is kept apart or merged depends on the hash values of the process
+fn pool_eq_pairs(d: &DFA) -> String {
+    let n = d.subdfas.verif_len();
+    let mut pairs = Vec::new();
+    for i in 0..n {
+        for j in (i + 1)..n {
+            if d.subdfas.verif_lookup(i) == d.subdfas.verif_lookup(j) {
+                pairs.push(format!("[{},{}]", i, j));
+            }
+        }
+    }
+    format!("[{}]", pairs.join(","))
+}
+
 fn hexbytes(b: &[u8]) -> String {
     if b.is_empty() {
         return "e".to_string();
@@ -373,7 +388,7 @@ fn run_case(shell_name: &str, text: &str, flags: &str) -> String {
         }
     };
     if want("dfa") {
-        write!(out, "\"raw\":{},\"subdfas\":{},", dfa_to_json(&raw), subdfas_to_json(&raw)).unwrap();
+        write!(out, "\"raw\":{},\"subdfas\":{},\"pool_eq\":{},", dfa_to_json(&raw), subdfas_to_json(&raw), pool_eq_pairs(&raw)).unwrap();
     }
     let min = raw.minimize();
     if want("dfa") {
